@@ -51,7 +51,9 @@ class C07(Prop):
         n = len(tr)
         for i in range(n):
             e = tr[i]
-            r.op(f"recn {i}", f"{us(e.time)} {fr(e.profit_on_idle_cash)} {fr(e.context_pre.nlv)} {fr(e.context_post.nlv)}",
+            cash_of = lambda ctx: sum(F(v) for c, v in ctx.nr_contracts.items() if type(c).__name__ == "Cash")
+            r.op(f"recn {i}", f"{us(e.time)} {fr(e.profit_on_idle_cash)} {fr(e.context_pre.nlv)} {fr(e.context_post.nlv)} "
+                              f"{fr(cash_of(e.context_pre))} {fr(cash_of(e.context_post))}",
                  Fraction(1, 10**9) * s.scale())
         if case.get("latency"):
             r.tags.add("latency")
@@ -153,6 +155,33 @@ class C07(Prop):
             if post is not None and abs(post - F(e.context_post.nlv)) > tol:
                 r.fail("post-nlv-not-replayable", entry=i, reported=float(e.context_post.nlv), replayed=float(post),
                        theorem="checkpoint_nlv_eq_ledger / entry_is_actual")
+            # each snapshot is consistent in itself: recorded cash + recorded margins + liquidation value of the
+            # recorded fully-paid positions = the NLV recorded in the same snapshot (all taken at one moment)
+            for which, ctx in (("pre", e.context_pre), ("post", e.context_post)):
+                try:
+                    cash_rec = sum(F(v) for c, v in ctx.nr_contracts.items() if type(c).__name__ == "Cash")
+                    marg_rec = sum(F(v) for c, v in ctx.margins.items())
+                    spot = Fraction(0)
+                    okq = True
+                    for c, v in ctx.nr_contracts.items():
+                        if type(c).__name__ == "Cash" or v == 0 or c.symbol not in s.specs:
+                            continue
+                        mlt, creq, mr = s.specs[c.symbol]
+                        if creq == 0:
+                            continue
+                        b, a = quote_at(c.symbol, t)
+                        px = b if v > 0 else a
+                        if px is None:
+                            okq = False
+                            break
+                        spot += F(v) * mlt * px
+                    if okq and abs(cash_rec + marg_rec + spot - F(ctx.nlv)) > tol:
+                        r.fail("snapshot-inconsistent", entry=i, which=which, cash=float(cash_rec), margins=float(marg_rec),
+                               fully_paid=float(spot), nlv=float(ctx.nlv),
+                               clause="the NLV, holdings ... it reports are the values the account actually had (one moment)",
+                               theorem="nlv_decomposition (C05) / entry_is_actual")
+                except (AttributeError, TypeError):
+                    pass
             held = {c.symbol: F(v) for c, v in e.context_post.nr_contracts.items() if c.symbol != "USD" and v != 0}
             mine = {k: v for k, v in pos.items() if v != 0}
             if any(abs(held.get(k, 0) - mine.get(k, 0)) > Fraction(1, 10**6) for k in set(held) | set(mine)):
